@@ -30,6 +30,8 @@ TRUSTED = [
     'not modelled: the template engine around the filter (parsing, _flatten, expression evaluation, non-i18n directives are opaque in the model); `re` (the two regular expressions are re-implemented as list functions); str.strip/str.isalpha (character classes generated from the running interpreter); gettext',
     'the reference template construction in harness/gen_i18n.py (i18n markup removed, message contents rebuilt from the documented [n:...] / %(name)s format)',
     'modelled, not verified: extract_from_code/_walk (Lean: extractFromCode over PyExpr, Genshi/Model/I18nPyExpr.lean), tied by the correspondence stream `pycode` on the syntax trees genshi builds (code.ast, converted generically by py_wire: calls, str/bytes constants, names; every other node by its AST children in _fields order)',
+    'the composition of the two models (Genshi/Model/I18nPyStream.lean: template streams whose code is a PyExpr, lowered by extractFromCode with the gettext_functions argument) is tied by the correspondence stream `extractp` (py_wire of every expression of the template stream); Translator.extract with search_text / comment_stack / context_stack given by the stream `extractw`',
+    'oracle only, not modelled: the Babel entry point genshi.filters.i18n.extract (option parsing), Translator.setup, the application of the remaining directives at the end of MsgDirective.__call__ / ChooseDirective.__call__ (_apply_directives); harness: c19.project / in_hypotheses decide which generated templates reach the oracle',
     'not modelled: how genshi turns source text into code.ast (parsing, TemplateASTTransformer); covered only by the pycode oracle, which reads the call sites off CPython\'s own ast of the source text and evaluates the source with recording stand-ins (harness/gen_pycode.py)',
 ]
 ASSUMPTIONS = [
